@@ -1,1 +1,156 @@
-verus!{}
+verus! {
+
+/// a node counts as alive: the local node, or a node whose status is Valid
+pub open spec fn node_valid(n: ClusterInnerNode) -> bool { n.is_local || n.status == NodeStatus::Valid }
+
+impl InnerNodeManage {
+    /// every node record is stored under its own id
+    pub open spec fn nodes_wf(&self) -> bool {
+        forall|k: u64| #[trigger] self.all_nodes@.contains_key(k) ==> self.all_nodes@[k].id == k
+    }
+    pub open spec fn valid_nodes(&self) -> Set<ClusterInnerNode> {
+        self.all_nodes@.values().filter(|v: ClusterInnerNode| node_valid(v))
+    }
+    /// valid nodes with a smaller id than this node: this node's rank among the valid nodes
+    pub open spec fn valid_below(&self) -> Set<ClusterInnerNode> {
+        self.all_nodes@.values().filter(|v: ClusterInnerNode| node_valid(v) && v.id < self.local_id)
+    }
+}
+
+pub open spec fn seen<T>(s: Seq<T>, n: int) -> Set<T> { s.take(n).to_set() }
+
+pub proof fn lemma_seen_next<T>(s: Seq<T>, n: int)
+    requires s.no_duplicates(), 0 <= n < s.len()
+    ensures seen(s, n + 1) == seen(s, n).insert(s[n]), !seen(s, n).contains(s[n]), seen(s, 0) == Set::<T>::empty()
+{
+    let a = s.take(n + 1);
+    let b = s.take(n);
+    assert(a =~= b.push(s[n]));
+    assert(a.to_set() =~= b.to_set().insert(s[n])) by {
+        assert forall|x: T| a.to_set().contains(x) <==> b.to_set().insert(s[n]).contains(x) by {
+            if a.contains(x) { let i = choose|i: int| 0 <= i < a.len() && a[i] == x; if i < n { assert(b[i] == x); } }
+            if b.contains(x) { let i = choose|i: int| 0 <= i < b.len() && b[i] == x; assert(a[i] == x); }
+            assert(a[n] == s[n]);
+        }
+    }
+    if b.contains(s[n]) { let i = choose|i: int| 0 <= i < b.len() && b[i] == s[n]; assert(s[i] == s[n]); }
+    assert(s.take(0).to_set() =~= Set::<T>::empty());
+}
+
+pub proof fn lemma_seen_zero<T>()
+    ensures forall|s: Seq<T>| #[trigger] seen(s, 0) == Set::<T>::empty()
+{
+    assert forall|s: Seq<T>| #[trigger] seen(s, 0) == Set::<T>::empty() by { assert(s.take(0).to_set() =~= Set::<T>::empty()); }
+}
+
+/// the values of a map whose records carry their own key, listed once each, form a duplicate-free sequence
+pub proof fn lemma_values_nodup(m: Map<u64, ClusterInnerNode>)
+    requires forall|k: u64| #[trigger] m.contains_key(k) ==> m[k].id == k
+    ensures forall|s: Seq<ClusterInnerNode>| s.to_set() == m.values() && s.len() == m.dom().len() ==> #[trigger] s.no_duplicates()
+{
+    assert(m.is_injective()) by {
+        assert forall|x: u64, y: u64| x != y && m.dom().contains(x) && m.dom().contains(y) implies #[trigger] m[x] != #[trigger] m[y] by {}
+    }
+    m.lemma_injective_values_len();
+    assert forall|s: Seq<ClusterInnerNode>| s.to_set() == m.values() && s.len() == m.dom().len() implies #[trigger] s.no_duplicates() by {
+        s.lemma_no_dup_set_cardinality();
+    }
+}
+
+pub proof fn lemma_filter_insert<T>(a: Set<T>, x: T, p: spec_fn(T) -> bool)
+    requires !a.contains(x)
+    ensures a.insert(x).filter(p).len() == a.filter(p).len() + (if p(x) { 1int } else { 0int })
+{
+    if p(x) {
+        assert(a.insert(x).filter(p) =~= a.filter(p).insert(x));
+    } else {
+        assert(a.insert(x).filter(p) =~= a.filter(p));
+    }
+}
+
+// ------------------------------------------------------------------ C14 at spec level: exactly one owner, routing agrees
+/// rank of x among the ids of a view
+pub open spec fn rank(v: Set<u64>, x: u64) -> int { v.filter(|y: u64| y < x).len() as int }
+
+/// the slot arithmetic of ProcessRange::is_range for the node with rank `idx` among `len` valid nodes
+pub open spec fn owns(idx: int, len: int, hash: int) -> bool { len < 2 || hash % len == idx }
+
+pub open spec fn has_rank(v: Set<u64>, r: int) -> bool { exists|x: u64| v.contains(x) && #[trigger] rank(v, x) == r }
+
+/// ranks of the members of a finite non-empty set are exactly 0..|v|-1, each taken once
+pub proof fn lemma_rank_bijection(v: Set<u64>)
+    requires v.len() > 0
+    ensures forall|x: u64| v.contains(x) ==> 0 <= #[trigger] rank(v, x) < v.len(),
+        forall|x: u64, y: u64| v.contains(x) && v.contains(y) && rank(v, x) == rank(v, y) ==> x == y,
+        forall|r: int| 0 <= r < v.len() ==> #[trigger] has_rank(v, r),
+    decreases v.len()
+{
+    // the maximum of v has rank |v|-1; the rest is handled by induction on v without its maximum
+    let m = choose|m: u64| v.contains(m) && forall|y: u64| v.contains(y) ==> y <= m;
+    lemma_has_max(v);
+    let w = v.remove(m);
+    assert(w.len() == v.len() - 1);
+    assert(v.filter(|y: u64| y < m) =~= w);
+    assert forall|x: u64| w.contains(x) implies rank(v, x) == rank(w, x) by {
+        assert(v.filter(|y: u64| y < x) =~= w.filter(|y: u64| y < x));
+    }
+    if w.len() > 0 {
+        lemma_rank_bijection(w);
+        assert forall|r: int| 0 <= r < v.len() implies #[trigger] has_rank(v, r) by {
+            if r < w.len() {
+                assert(has_rank(w, r));
+                let x = choose|x: u64| w.contains(x) && rank(w, x) == r;
+                assert(v.contains(x) && rank(v, x) == r);
+            } else {
+                assert(v.contains(m) && rank(v, m) == r);
+            }
+        }
+    } else {
+        assert forall|r: int| 0 <= r < v.len() implies #[trigger] has_rank(v, r) by {
+            assert(v.contains(m) && rank(v, m) == 0);
+        }
+        assert forall|x: u64| v.contains(x) implies x == m by { if x != m { assert(w.contains(x)); } }
+    }
+}
+
+pub proof fn lemma_has_max(v: Set<u64>)
+    requires v.len() > 0
+    ensures exists|m: u64| v.contains(m) && forall|y: u64| v.contains(y) ==> y <= m
+    decreases v.len()
+{
+    let a = v.choose();
+    let w = v.remove(a);
+    if w.len() == 0 {
+        assert forall|y: u64| v.contains(y) implies y <= a by { if y != a { assert(w.contains(y)); } }
+    } else {
+        lemma_has_max(w);
+        let mw = choose|m: u64| w.contains(m) && forall|y: u64| w.contains(y) ==> y <= m;
+        let m = if a > mw { a } else { mw };
+        assert(v.contains(m));
+        assert forall|y: u64| v.contains(y) implies y <= m by { if y != a { assert(w.contains(y)); } }
+    }
+}
+
+/// C14: for every view with at least one valid node and every hash, exactly one valid node owns it when every node computes
+/// (rank among valid nodes, number of valid nodes) — which is what get_current_process_range is proved to return —
+/// and that owner is the node at position hash % count of the valid nodes in id order, i.e. the node route_addr picks
+pub proof fn lemma_exactly_one_owner(v: Set<u64>, hash: int)
+    requires v.len() > 0, hash >= 0
+    ensures exists|x: u64| v.contains(x) && owns(rank(v, x), v.len() as int, hash) && rank(v, x) == (if v.len() < 2 { 0int } else { hash % (v.len() as int) }),
+        forall|x: u64, y: u64| v.contains(x) && v.contains(y) && owns(rank(v, x), v.len() as int, hash) && owns(rank(v, y), v.len() as int, hash) ==> x == y,
+{
+    lemma_rank_bijection(v);
+    let n = v.len() as int;
+    let r = if n < 2 { 0int } else { hash % n };
+    assert(0 <= r < n) by(nonlinear_arith) requires n > 0, hash >= 0, r == (if n < 2 { 0int } else { hash % n });
+    assert(has_rank(v, r));
+    let x = choose|x: u64| v.contains(x) && rank(v, x) == r;
+    assert(v.contains(x) && owns(rank(v, x), n, hash));
+    if n < 2 {
+        assert forall|a: u64, b: u64| v.contains(a) && v.contains(b) implies a == b by {
+            assert(rank(v, a) == 0 && rank(v, b) == 0);
+        }
+    }
+}
+
+} // verus!
